@@ -84,6 +84,18 @@ func runC06(r *run) {
 			s := sanitizeText(sb.String())
 			emit(caseT{"text", w.args(s, c06Ctx())})
 		}
+		// text that comes out of a loader is reproduced like text handed over as a string, whatever
+		// bytes it starts with
+		for i := 0; i < nfr/10; i++ {
+			var sb strings.Builder
+			sb.WriteString(rg.pick([]string{"", "\xef\xbb\xbf", "\xef\xbb", "\ufeff\ufeff", "\xff\xfe", "\x00", "#!", "\r\n", "<?xml", " ", "\xc3"}))
+			for k := 0; k < rg.intn(6); k++ {
+				sb.WriteString(rg.pick([]string{"a", "hello ", "\n", "\xe9", "é", "{ ", "}", "%", "\xef\xbb\xbf"}))
+			}
+			s := sanitizeText(sb.String())
+			wf := &world{files: []map[string]string{{"main.tpl": s, "wrap.tpl": "[{% include \"main.tpl\" %}]", "child.tpl": "{% extends \"main.tpl\" %}"}}}
+			emit(caseT{"textfile", append(wf.args(rg.pick([]string{"main.tpl", "wrap.tpl", "child.tpl"}), c06Ctx()), "-", "-", hx(s))})
+		}
 		// fragment sequences
 		for i := 0; i < nfr; i++ {
 			g := newDocGen(rg.fork(uint64(i)))
@@ -109,6 +121,20 @@ func runC06(r *run) {
 }
 
 func execC06(r *run, c caseT) {
+	if c.op == "textfile" {
+		w, name, ctx := worldFromArgs(c.args)
+		o, _ := w.render(name, true, ctx)
+		id := r.emit("renderfile", c.args, o.obs)
+		r.nontrivial(c.args[2] + c.args[0])
+		want := unhx(c.args[9])
+		if name == "wrap.tpl" {
+			want = "[" + want + "]"
+		}
+		if o.obs != obsOK(want) {
+			r.reject(id, "text loaded through a loader is not reproduced byte for byte", map[string]any{"entry": name, "text_hex": c.args[9], "observed": o.obs})
+		}
+		return
+	}
 	w, src, ctx := worldFromArgs(c.args)
 	o, _ := w.render(src, false, ctx)
 	id := r.emit(c.op, c.args, o.obs)
